@@ -2,8 +2,12 @@
 
 run_unit(ctx) -> dict(violations=[...], evaluations=int, distinct=int, samples=[...])
 
-Random multi-object histories (2-6 objects; creations, writes, attributes up to the header-full and
-dense-transition points, hard / soft / external links, resize, failing calls, close / reopen) are replayed by
+Random multi-object histories (2-6 objects; creations of every kind the write API offers -- symbol-table groups,
+CreateDenseGroup / CreateGroupWithLinks (0, 1..8, more than 8 links), contiguous / chunked / filtered datasets of
+numeric, string, compound, array, enum, opaque, reference and variable-length types --, writes (variable-length data
+goes through global heap collections), attributes up to the header-full and dense-transition points, hard / soft /
+external links, resize, failing calls, close / reopen), and "grow with a neighbour" histories (an object of each
+kind, a neighbour allocated right behind it, then header growth by hard links / attributes) are replayed by
 the harness subcommand `c04unit`, which reports after every call the allocator state of the low-level
 writer, the physical file size and the byte ranges that changed in the file.
 
@@ -13,8 +17,10 @@ operation sequence):
   (b) every changed byte range lies inside a block allocated for the targeted object, inside the heap /
       symbol-node block of the parent group (creations, links), or inside a block allocated by this call;
       for a call that returned an error: inside blocks allocated by this call only (hard link: or inside
-      the target's header block).  Close / reopen: nothing but the first 48 bytes (the superblock's
-      end-of-file field and checksum, rewritten by Close when the allocator moved).  (frame property, byte-wise)
+      the target's header block).  A variable-length write may also rewrite the global heap collection that was
+      current when it started (roll-over flush).  Close / reopen: nothing but the first 48 bytes (the superblock's
+      end-of-file field and checksum, rewritten by Close when the allocator moved) and the current global heap
+      collection (lazy flush: must end inside the block allocated for it).  (frame property, byte-wise)
   (c) after Close the file size is at least the allocator's end of file, and the allocator of the next
       session does not start below it.
 Fidelity diagnostics (NOT violations; reported in `samples`): ok/err, end of file, file size, sequence of
@@ -23,6 +29,8 @@ allocated blocks and changed ranges versus the prediction of the Coq model Model
 import os, re, sys
 sys.path.insert(0, os.path.dirname(os.path.dirname(os.path.abspath(__file__))))
 import vlib
+import histgen
+from histlib import esize_of
 
 NO_OBJ = 4294967295
 ESZ = {"int8": 1, "uint8": 1, "int16": 2, "uint16": 2, "int32": 4, "uint32": 4, "int64": 8, "uint64": 8,
@@ -144,27 +152,40 @@ class Plan:
             pre_ok = not self.closed and self.parent_known(p)
             nb = dict(kind="group", msgs=[[17, 16]], nent=0, hused=0, nrec=0, attrs=[], children={})
         elif kind == "contig":
-            dt, dims = kw["dtype"], kw["dims"]
-            esz = kw.get("strsize") if dt == "string" else ESZ[dt]
-            op = {"op": "mkds", "path": path, "dtype": dt, "dims": dims}
-            if dt == "string":
-                op["strsize"] = esz
+            dt, dims, spec = kw["dtype"], kw["dims"], kw.get("spec")
+            if spec:        # extended kind (compound, array, enum, opaque, reference, variable-length): see probe_specs
+                op = dict({"op": spec["opname"], "path": path, "dims": dims}, **spec["fields"])
+                esz, ldt, dt = spec["esz"], spec["ldt"], spec["dtype"]
+            else:
+                esz = kw.get("strsize") if dt == "string" else ESZ[dt]
+                ldt = LDT[dt]
+                op = {"op": "mkds", "path": path, "dtype": dt, "dims": dims}
+                if dt == "string":
+                    op["strsize"] = esz
             dsize = prod(dims) * esz
-            coq = "OpMkContig %d %d %s %d %d %d" % (p, nl, self.cb(dup), LDT[dt], len(dims), dsize)
+            coq = "OpMkContig %d %d %s %d %d %d" % (p, nl, self.cb(dup), ldt, len(dims), dsize)
             pre_ok = not self.closed
-            nb = dict(kind="contig", msgs=[[3, LDT[dt]], [1, 8 + 8 * len(dims)], [8, 18]], nrec=0, attrs=[], dtype=dt,
-                      dims=list(dims), esz=esz)
+            nb = dict(kind="contig", msgs=[[3, ldt], [1, 8 + 8 * len(dims)], [8, 18]], nrec=0, attrs=[], dtype=dt,
+                      dims=list(dims), esz=esz, ext=bool(spec))
         elif kind == "chunked":
-            dt, dims, ch, md = kw["dtype"], kw["dims"], kw["chunk"], kw.get("maxdims")
-            esz = ESZ[dt]
-            op = {"op": "mkds", "path": path, "dtype": dt, "dims": dims, "chunk": ch}
+            dt, dims, ch, md, spec = kw["dtype"], kw["dims"], kw["chunk"], kw.get("maxdims"), kw.get("spec")
+            lpipe, filters = 0, None
+            if spec:        # extended kind and / or filter pipeline
+                op = dict({"op": "mkds", "path": path, "dims": dims, "chunk": ch}, **spec["fields"])
+                esz, ldt, dt = spec["esz"], spec["ldt"], spec["dtype"]
+                if spec.get("filters"):
+                    filters, lpipe = spec["filters"], spec["lpipe"]
+                    op["filters"] = filters
+            else:
+                esz, ldt = ESZ[dt], LDT[dt]
+                op = {"op": "mkds", "path": path, "dtype": dt, "dims": dims, "chunk": ch}
             if md:
                 op["maxdims"] = md
             r = len(dims)
-            coq = "OpMkChunked %d %d %s %d %d %s 0" % (p, nl, self.cb(dup), LDT[dt], r, self.cb(bool(md)))
+            coq = "OpMkChunked %d %d %s %d %d %s %d" % (p, nl, self.cb(dup), ldt, r, self.cb(bool(md)), lpipe)
             pre_ok = not self.closed
-            nb = dict(kind="chunked", msgs=[[3, LDT[dt]], [1, 8 + 8 * r + (8 * r if md else 0)], [8, 11 + 4 * r]], nrec=0,
-                      attrs=[], dtype=dt, dims=list(dims), chunk=list(ch), maxdims=md, esz=esz)
+            nb = dict(kind="chunked", msgs=[[3, ldt], [1, 8 + 8 * r + (8 * r if md else 0)], [8, 11 + 4 * r]] + ([[11, lpipe]] if lpipe else []),
+                      nrec=0, attrs=[], dtype=dt, dims=list(dims), chunk=list(ch), maxdims=md, esz=esz, ext=bool(spec), filters=filters)
         else:  # soft / external link object
             tgt = kw["target"]
             if kind == "soft":
@@ -186,6 +207,45 @@ class Plan:
             return x
         return None
 
+    # ---- groups created together with their links
+    def resolvable(self, target):
+        """mirror of resolveObjectAddress: the target is an entry of the root group or of a group made by CreateGroup"""
+        if self.session != 0 or target not in self.paths:
+            return False
+        par, _ = self.split(target)
+        pp = self.paths.get(par)
+        return pp == 0 or (pp in self.objs and self.objs[pp]["kind"] == "group")
+
+    def mkdense(self, path, links, opname="mkdense"):
+        """CreateDenseGroup, or CreateGroupWithLinks (0 links: CreateGroup without a handle; 1..8: refused; more: dense)"""
+        op = {"op": opname, "path": path, "links": links}
+        parent, name = self.split(path)
+        p = self.paths.get(parent, NO_OBJ)
+        x = self.oid_next()
+        nl = len(name.encode())
+        dup = p in self.objs and self.objs[p]["kind"] == "group" and name in self.objs[p]["children"]
+        if opname == "mkgrouplinks" and len(links) <= 8:
+            if links:
+                self.emit(op, "OpReject")
+                return None
+            self.emit(op, "OpMkGroup %d %d %s" % (p, nl, self.cb(dup)))
+            if not self.closed and self.parent_known(p) and self.link(p, name):
+                self.objs[x] = dict(kind="group", msgs=[[17, 16]], nent=0, hused=0, nrec=0, attrs=[], children={})
+                self.paths[path] = x
+                self.nlinks[x] = 1
+                self.do_link(p, name, x)        # no GroupWriter is returned: no handle
+                return x
+            return None
+        fit = all(self.resolvable(t) for t in links.values())
+        self.emit(op, "OpMkDense %d %d %s %d %s" % (p, nl, self.cb(dup), len(links), self.cb(fit)))
+        if links and fit and self.session == 0 and not self.closed and self.parent_known(p) and self.link(p, name):
+            self.objs[x] = dict(kind="dense", msgs=[[2, 18], [1, 8]], nrec=0, attrs=[])
+            self.paths[path] = x
+            self.nlinks[x] = 1
+            self.do_link(p, name, x)
+            return x
+        return None
+
     # ---- data
     def nchunks(self, o):
         return prod([(d + c - 1) // c for d, c in zip(o["dims"], o["chunk"])])
@@ -198,6 +258,8 @@ class Plan:
             return
         if self.no_handle(path):
             bad = True
+        if str(o.get("dtype", "")).startswith("vlen:"):
+            return self.write_vlen(path, x, o, bad)
         n = prod(o["dims"]) * o["esz"]
         if bad:
             n += o["esz"]
@@ -209,6 +271,8 @@ class Plan:
         else:
             val = bytes(rng.randint(1, 255) for _ in range(n))
         op = {"op": "write", "path": path, "val": val.hex(), "dtype": o.get("dtype")}
+        if o.get("ext"):
+            op.pop("dtype")
         if o.get("dtype") != "string":
             op["raw"] = True
         if bad:
@@ -217,7 +281,38 @@ class Plan:
             self.emit(op, "OpWrite %d []" % x)
         else:
             csz = prod(o["chunk"]) * o["esz"]
-            self.emit(op, "OpWrite %d [%s]" % (x, ";".join(str(csz) for _ in range(self.nchunks(o)))))
+            sizes = ";".join(str(csz) for _ in range(self.nchunks(o)))
+            if o.get("filters"):
+                # the stored length of a filtered chunk is a parameter of the history (C08): taken from the blocks the
+                # implementation allocated (fill_stored_sizes); the unfiltered length is the fall-back
+                self.emit(op, "OpWrite %d [{CH:%d:%d:%s}]" % (x, len(self.ops), self.nchunks(o), sizes))
+            else:
+                self.emit(op, "OpWrite %d [%s]" % (x, sizes))
+
+    def write_vlen(self, path, x, o, bad):
+        rng = self.rng
+        base = o["dtype"][5:]
+        w = 1 if base == "string" else ESZ[base]
+        n = prod(o["dims"]) + (1 if bad else 0)
+        vals = []
+        for _ in range(n):
+            ln = rng.choice([0, 1, 2, 3, 7, 8, 9, rng.randint(0, 30)] + ([rng.choice([700, 1500, 3000, 5000])] if rng.random() < 0.25 else []))
+            if base != "string":
+                ln = ln // w
+            vals.append(bytes(rng.randint(1, 255) for _ in range(ln * w)))
+        op = {"op": "write", "path": path, "dtype": o["dtype"], "vals": [v.hex() for v in vals]}
+        if bad:
+            self.emit(op, "OpReject")
+            return
+        lens = ";".join(str(len(v)) for v in vals)
+        if o["kind"] == "contig":
+            self.emit(op, "OpWriteVL %d [%s] []" % (x, lens))
+        else:
+            csz = prod(o["chunk"]) * 16
+            sizes = ";".join(str(csz) for _ in range(self.nchunks(o)))
+            if o.get("filters"):
+                sizes = "{CH:%d:%d:%s}" % (len(self.ops), self.nchunks(o), sizes)
+            self.emit(op, "OpWriteVL %d [%s] [%s]" % (x, lens, sizes))
 
     def resize(self, path):
         x = self.paths.get(path)
@@ -237,7 +332,7 @@ class Plan:
         x = self.paths.get(path)
         o = self.objs.get(x)
         op = {"op": "setattr", "path": path, "name": hx(name), "kind": kind, "val": raw.hex()}
-        if o is None or o["kind"] == "link" or (o["kind"] == "group" and self.session != 0) or self.no_handle(path):
+        if o is None or o["kind"] in ("link", "dense") or (o["kind"] == "group" and self.session != 0) or self.no_handle(path):
             self.emit(op, "OpReject")     # no handle can be obtained for it
             return
         alen = attr_len(name, kind, raw)
@@ -281,7 +376,7 @@ class Plan:
         x = self.paths.get(path)
         o = self.objs.get(x)
         op = {"op": "delattr", "path": path, "name": hx(name)}
-        if o is None or o["kind"] in ("link", "group") or self.no_handle(path):
+        if o is None or o["kind"] in ("link", "group", "dense") or self.no_handle(path):
             self.emit(op, "OpReject")
             return
         exists = name in o["attrs"]
@@ -368,7 +463,55 @@ def rand_attr(rng, big=0.15):
     return k, bytes(rng.randint(1, 255) for _ in range(KSZ[k]))
 
 
-def gen_history(rng, pre=False, ai=False):
+def probe_specs(ctx, rng, n=36):
+    """A pool of dataset type specifications of the extended kinds (and of filter pipelines), each with the length of its
+    datatype / filter pipeline message as the implementation encodes it (one tiny creation per specification; the byte
+    contents of these messages are C11's and C08's subject, their length is a parameter of the store model)."""
+    raw = []
+    for _ in range(n):
+        r = rng.random()
+        if r < 0.2:
+            comp = histgen.rand_compound(rng)
+            raw.append(dict(opname="mkcompound", fields=dict(comp), dtype="compound", esz=comp["csize"], filters=None))
+            continue
+        if r < 0.4:
+            dt = rng.choice(list(ESZ))
+            f = {"dtype": dt}
+        else:
+            f = histgen.rand_ext_kind(rng)
+        esz = esize_of(f["dtype"], f.get("strsize", 0), f.get("adims"), 0)
+        filters = None
+        if r < 0.4 or rng.random() < 0.25:
+            filters = rng.choice([["gzip:6"], ["shuffle", "gzip:1"], ["fletcher32"], ["gzip:9", "fletcher32"], ["shuffle"]])
+        raw.append(dict(opname="mkds", fields=f, dtype=f["dtype"], esz=esz, filters=filters))
+    cases = []
+    for sp in raw:
+        op = dict({"op": sp["opname"], "path": "/p", "dims": [4]}, **sp["fields"])
+        if sp["filters"]:
+            op.update(chunk=[2], filters=sp["filters"])
+        cases.append(dict(sb=2, ops=[op], dir=vlib.scratch()))
+    out = []
+    for sp, r in zip(raw, vlib.run_harness_parallel(ctx.harness, "c04unit", cases)):
+        st = (r.get("steps") or [None, None])[1] if len(r.get("steps") or []) > 1 else None
+        if not st or not st["res"].get("ok") or not st.get("hdr") or not sp["esz"]:
+            continue
+        h = {t: l for t, l in st["hdr"]}
+        if 3 not in h:
+            continue
+        sp["ldt"] = h[3]
+        sp["lpipe"] = h.get(11, 0)
+        if sp["filters"] and not sp["lpipe"]:
+            sp["filters"] = None
+        out.append(sp)
+    return out
+
+
+def pick_spec(rng, pool, want=None):
+    c = [sp for sp in pool if want is None or want(sp)]
+    return rng.choice(c) if c else None
+
+
+def gen_history(rng, pre=False, ai=False, pool=()):
     sb = rng.choice([0, 2, 2, 3])
     P = Plan(rng, sb, pre, ai)
     nobj = rng.randint(2, 6)
@@ -387,9 +530,34 @@ def gen_history(rng, pre=False, ai=False):
         nonlocal created
         r = rng.random()
         path = newpath()
-        if r < 0.25:
+        ext = pool and rng.random() < 0.4
+        if r < 0.18:
             if P.create("group", path) is not None:
                 groups.append(path)
+        elif r < 0.25:
+            # a group created together with its links (dense format), or through CreateGroupWithLinks
+            tg = [d for d in dsets if P.paths.get(d) is not None] + (["/missing"] if rng.random() < 0.1 else [])
+            k = rng.choice([0, 1, 1, 2, 3, 9, 12])
+            lk = {"k%d" % i: rng.choice(tg) for i in range(k)} if tg else {}
+            x = P.mkdense(path, lk, rng.choice(["mkdense", "mkdense", "mkgrouplinks"]))
+            if x is not None:
+                if P.objs[x]["kind"] == "group":
+                    groups.append(path)
+                else:
+                    links.append(path)      # usable as a hard-link target only
+        elif r < 0.6 and ext:
+            sp = pick_spec(rng, pool)
+            dims = rng.choice([[3], [4], [2, 3], [1]])
+            if sp["opname"] == "mkcompound" or (not sp["filters"] and rng.random() < 0.6):
+                if P.create("contig", path, dtype=sp["dtype"], dims=dims, spec=dict(sp, filters=None)) is not None:
+                    dsets.append(path)
+            else:
+                ch = [max(1, min(d, rng.choice([1, 2, d]))) for d in dims]
+                md = None
+                if rng.random() < 0.3 and not sp["dtype"].startswith("vlen:"):
+                    md = [rng.choice([UNLIMITED, d, d + 4]) for d in dims]
+                if P.create("chunked", path, dtype=sp["dtype"], dims=dims, chunk=ch, maxdims=md, spec=sp) is not None:
+                    dsets.append(path)
         elif r < 0.6:
             dt = rng.choice(list(ESZ) + ["string"])
             dims = rng.choice([[3], [7], [2, 3], [4, 5], [2, 2, 2], [1]])
@@ -502,6 +670,79 @@ def gen_history(rng, pre=False, ai=False):
     return dict(sb=sb, ops=P.ops, coq=P.coq)
 
 
+def gen_neighbour(rng, pre=False, ai=False, pool=()):
+    """Grow with a neighbour (cf. histgen.gen_grow_with_neighbour): an object X of each kind in turn, a neighbour Y allocated
+    right behind it, then X's object header grows in the same session (first hard link: reference-count message; attributes up
+    to the dense transition).  Every changed byte must stay inside X's blocks.  This is the pattern by which the exact-size
+    header of CreateDenseGroup (/repo before 18bfe7a) overwrote its neighbour."""
+    P = Plan(rng, rng.choice([0, 2, 2, 3]), pre, ai)
+
+    def mk(path, kind):
+        dims = [rng.choice([1, 2, 3, 4])]
+        x = None
+        if kind == "plain":
+            x = P.create("contig", path, dtype=rng.choice(list(ESZ)), dims=dims)
+        elif kind == "string":
+            x = P.create("contig", path, dtype="string", dims=dims, strsize=4)
+        elif kind == "chunked":
+            x = P.create("chunked", path, dtype=rng.choice(list(ESZ)), dims=dims, chunk=[1])
+        elif kind == "group":
+            x = P.create("group", path)
+        elif kind == "soft":
+            x = P.create("soft", path, target="/d0")
+        elif kind == "dense":
+            x = P.mkdense(path, {"l%d" % i: "/d0" for i in range(rng.choice([1, 1, 2]))})
+        elif kind == "glinks":
+            x = P.mkdense(path, {"m%d" % i: "/d0" for i in range(rng.choice([0, 9, 12]))}, "mkgrouplinks")
+        else:   # a kind of the pool: compound, array, enum, opaque, objref, regref, vlen, filtered
+            sp = pick_spec(rng, pool, lambda q: q["dtype"].split(":")[0] == kind or (kind == "filtered" and q["filters"]))
+            if sp is None:
+                return mk(path, "plain")
+            if kind == "filtered" or (sp["filters"] and rng.random() < 0.5):
+                x = P.create("chunked", path, dtype=sp["dtype"], dims=dims, chunk=[rng.choice([1, dims[0]])], spec=sp)
+            else:
+                x = P.create("contig", path, dtype=sp["dtype"], dims=dims, spec=dict(sp, filters=None))
+        if x is not None and P.objs[x]["kind"] in ("contig", "chunked") and rng.random() < 0.9:
+            P.write(path)
+        return x
+
+    mk("/d0", rng.choice(["plain", "chunked"]))
+    kind = rng.choice(["plain", "string", "chunked", "compound", "array", "enum", "opaque", "objref", "regref", "vlen", "filtered",
+                       "group", "glinks", "soft", "dense", "dense", "dense"])
+    mk("/x", kind)
+    if rng.random() < 0.3:
+        mk("/yg", "group")
+    mk("/y", rng.choice(["plain", "plain", "string", "chunked", "vlen"]))
+    grow = rng.choice(["link", "link", "attrs", "both"])
+    if grow in ("link", "both"):
+        P.hardlink("/xl", "/x")
+        if rng.random() < 0.3:
+            P.hardlink("/xl2", "/x")
+    if grow in ("attrs", "both"):
+        for j in range(rng.choice([1, 3, 9, 12])):
+            k, v = rand_attr(rng)
+            P.setattr("/x", "a%02d" % j, k, v)
+    if rng.random() < 0.5:
+        mk("/z", rng.choice(["plain", "group", "vlen"]))
+    if rng.random() < 0.4 and "/y" in P.paths:
+        P.write("/y")
+    if rng.random() < 0.6:
+        P.close()
+    return dict(sb=P.sb, ops=P.ops, coq=P.coq)
+
+
+def fill_stored_sizes(case, steps):
+    """{CH:i:n:fallback}: stored sizes of the n chunks written by operation i = the blocks the implementation allocated for
+    them (the n blocks before the last one, the chunk index), when the call succeeded"""
+    def sub(m):
+        i, n, fb = int(m.group(1)), int(m.group(2)), m.group(3)
+        stp = steps[i + 1] if i + 1 < len(steps) else None
+        if stp and stp["res"].get("ok") and len(stp["newblocks"]) >= n + 1:      # (global heap collections come first)
+            return ";".join(str(b[1]) for b in stp["newblocks"][-(n + 1):-1])
+        return fb
+    case["coq"] = [re.sub(r"\{CH:(\d+):(\d+):([0-9;]*)\}", sub, c) for c in case["coq"]]
+
+
 # --------------------------------------------------------------------------- checks on the Go output
 
 def merge(iv):
@@ -531,6 +772,8 @@ def check_go(case, steps):
     hs = {}                 # group oid -> [heap block, symbol node block]
     st0 = steps[0]
     maxend = sbsize
+    gcur = None             # block of the global heap collection being filled (one heap writer per session)
+    nchunks_of = {}         # oid of a chunked dataset -> number of chunks
     def add_blocks(i, new, eof):
         nonlocal maxend
         for off, size in new:
@@ -569,7 +812,12 @@ def check_go(case, steps):
         prev_eof = stp["eof"]
         allowed, allowed_fail = list(new), list(new)
         x = None
-        if k in ("mkgroup", "mkds", "softlink", "extlink"):
+        vlen_write = k == "write" and op.get("vals") is not None
+        if vlen_write and gcur:
+            # the roll-over flush of the current collection comes first, also when the call fails later
+            allowed.append(gcur)
+            allowed_fail.append(gcur)
+        if k in ("mkgroup", "mkds", "softlink", "extlink", "mkcompound", "mkdense", "mkgrouplinks"):
             x = i + 1
             allb[x] = list(new)
             par = op["path"][:op["path"].rfind("/")] or "/"
@@ -578,11 +826,13 @@ def check_go(case, steps):
                 allowed += hs[p]
             if ok:
                 path_oid[op["path"]] = x
-                if k == "mkgroup" and len(new) >= 4:
+                if (k == "mkgroup" or (k == "mkgrouplinks" and not op.get("links"))) and len(new) >= 4:
                     hs[x] = [new[0], new[1]]
                     hdr[x] = new[3]
-                elif k == "mkds":
-                    hdr[x] = new[-1] if new else None
+                elif k in ("mkds", "mkcompound", "mkdense", "mkgrouplinks"):
+                    hdr[x] = new[-1] if new else None       # the object header is allocated last
+                    if op.get("chunk"):
+                        nchunks_of[x] = prod([(d + c - 1) // c for d, c in zip(op["dims"], op["chunk"])])
                 elif new:
                     hdr[x] = new[0]
         elif k in ("write", "resize", "setattr", "delattr", "closeds"):
@@ -590,6 +840,11 @@ def check_go(case, steps):
             if x is not None:
                 allowed += allb.get(x, [])
                 allb.setdefault(x, []).extend(new)
+            if vlen_write and new:
+                # collections first, then (chunked layout) the chunks and their index
+                cols = new[:len(new) - (nchunks_of[x] + 1)] if (x in nchunks_of and ok) else new
+                if cols:
+                    gcur = cols[-1]
         elif k == "hardlink":
             t = path_oid.get(op["target"])
             par = op["path"][:op["path"].rfind("/")] or "/"
@@ -603,7 +858,9 @@ def check_go(case, steps):
                 path_oid[op["path"]] = t
         if k in ("close", "reopen"):
             # Close may rewrite the end-of-file field (and checksum) of the superblock
-            allowed = allowed_fail = [[0, 48]]
+            allowed = allowed_fail = [[0, 48]] + ([gcur] if gcur else [])   # and flushes the global heap
+            if k == "reopen":
+                gcur = None
         use = merge(allowed if ok else allowed_fail)
         for run in stp["changed"]:
             if not inside(run, use):
@@ -629,11 +886,14 @@ def repo_cfg():
             return open(os.path.join(vlib.REPO, name)).read()
         except OSError:
             return ""
-    if "linkAddr, err := fw.writer.Allocate(maxObjectHeaderV2Size)" not in src("link_write.go"):
-        return "cfg_repo"
-    pre = "func (fw *FileWriter) checkLinkable(" in src("group_write.go")
-    ai = bool(re.search(r"if objectHeaderSize > 7\+255 \{", src("attribute_write.go")))
-    return "(gcfg %s %s)" % ("true" if pre else "false", "true" if ai else "false")
+    b = lambda v: "true" if v else "false"
+    link = "linkAddr, err := fw.writer.Allocate(maxObjectHeaderV2Size)" in src("link_write.go")
+    pre = link and "func (fw *FileWriter) checkLinkable(" in src("group_write.go")
+    ai = link and bool(re.search(r"if objectHeaderSize > 7\+255 \{", src("attribute_write.go")))
+    dense = "allocator.Allocate(allocSize)" in src("internal/writer/densegroup_writer.go")     # 18bfe7a
+    if link and dense:
+        return "(gcfg %s %s)" % (b(pre), b(ai))
+    return "(mkCfg true %s true true %s %s %s)" % (b(link), b(pre), b(ai), b(dense))
 
 
 def parse_trace(flat, nsteps):
@@ -699,8 +959,11 @@ def run_unit(ctx, n=None):
     if n is None:
         n = 140 if ctx.tier == "quick" else 2500
     cfg = repo_cfg()
-    pre, ai = ("gcfg true" in cfg), cfg.endswith("true)")
-    cases = [gen_history(rng, pre, ai) for _ in range(n)]
+    toks = cfg.strip("()").split()
+    pre, ai = (toks[1] == "true", toks[2] == "true") if toks[0] == "gcfg" else (toks[5] == "true", toks[6] == "true")
+    pool = probe_specs(ctx, rng, 36 if ctx.tier == "quick" else 120)
+    nn = max(1, n // 3)
+    cases = [gen_history(rng, pre, ai, pool) for _ in range(n - nn)] + [gen_neighbour(rng, pre, ai, pool) for _ in range(nn)]
     scratch = vlib.scratch()
     payload = [dict(sb=c["sb"], ops=c["ops"], dir=scratch) for c in cases]
     results = vlib.run_harness_parallel(ctx.harness, "c04unit", payload)
@@ -709,6 +972,7 @@ def run_unit(ctx, n=None):
     sigs = set()
     opmix = {}
     nfail_calls = ndense = nreopen = 0
+    ngcol = ndgroup = 0
     for c, r in zip(cases, results):
         if "steps" not in r:
             violations.append(dict(what="c04unit harness failed: %r" % (str(r)[:300],), case=dict(sb=c["sb"], ops=c["ops"])))
@@ -721,6 +985,8 @@ def run_unit(ctx, n=None):
             opmix[op["op"]] = opmix.get(op["op"], 0) + 1
             nfail_calls += (not ok)
             ndense += any(b[1] == 65536 for b in s["newblocks"])
+            ndgroup += any(b[1] == 524288 for b in s["newblocks"])
+            ngcol += sum(1 for b in s["newblocks"] if op.get("vals") is not None and b[1] % 4096 == 0)
             nreopen += bool(s.get("reset"))
         for v in check_go(c, steps):
             i = v.get("step", -1)
@@ -732,6 +998,8 @@ def run_unit(ctx, n=None):
     diverging = 0
     try:
         good = [(c, r["steps"]) for c, r in zip(cases, results) if "steps" in r]
+        for c, steps in good:
+            fill_stored_sizes(c, steps)
         mts = model_traces([c for c, _ in good], cfg)
         for (c, steps), mt in zip(good, mts):
             d = compare_model(c, steps, mt)
@@ -751,7 +1019,8 @@ def run_unit(ctx, n=None):
                                               changed=s["changed"][:4])
                                          for o, s in list(zip(c["ops"], r.get("steps", [None])[1:]))[:4]]))
     samples.append(dict(kind="distribution", histories=len(cases), op_mix=opmix, failing_calls=nfail_calls,
-                        dense_transitions=ndense, reopens=nreopen, model=model_note))
+                        dense_transitions=ndense, dense_groups=ndgroup, global_heap_collections=ngcol, reopens=nreopen,
+                        type_pool=len(pool), model=model_note))
     return dict(violations=violations, evaluations=evaluations, distinct=len(sigs), samples=samples,
                 model_divergent_histories=diverging, model_cfg=cfg)
 
